@@ -24,7 +24,7 @@ package keeper
 //@         && (forall d: str :: {$supply[d]} $supply[d] == old($supply[d]) - truncInt(old(state.Remains[d])))
 //@         && (forall d: str :: {$bal[MAIN()][d]} $bal[MAIN()][d] == old($bal[MAIN()][d]) - truncInt(old(state.Remains[d])))
 //@         && (forall a: str :: {$bal[a]} a != MAIN() ==> $bal[a] == old($bal[a])))
-//@   prop C01 C14 C10
+//@   prop C01 C14 C10 C03
 //@ func (k Keeper) sendCoinsToModuleAccount(ctx, state)
 //@   requires state != nil && state.Account != nil && modaddr(state.Account.Id) != MAIN()
 //@   // the destination was validated against maccPerms when it was configured (Account.Validate)
@@ -36,7 +36,7 @@ package keeper
 //@         && (forall d: str :: {$bal[MAIN()][d]} $bal[MAIN()][d] == old($bal[MAIN()][d]) - truncInt(old(state.Remains[d])))
 //@         && (forall d: str :: {$bal[modaddr(state.Account.Id)][d]} $bal[modaddr(state.Account.Id)][d] == old($bal[modaddr(state.Account.Id)][d]) + truncInt(old(state.Remains[d])))
 //@         && (forall a: str :: {$bal[a]} a != MAIN() && a != modaddr(state.Account.Id) ==> $bal[a] == old($bal[a])))
-//@   prop C14 C01 C10
+//@   prop C14 C01 C10 C03
 //@ func (k Keeper) sendCoinsToBaseAccount(ctx, state)
 //@   requires state != nil && state.Account != nil && fromBech32(state.Account.Id) != MAIN()
 //@   modifies $bal, *state, $accTag, $accSeq, $accPub
@@ -46,7 +46,7 @@ package keeper
 //@         && (forall d: str :: {$bal[MAIN()][d]} $bal[MAIN()][d] == old($bal[MAIN()][d]) - truncInt(old(state.Remains[d])))
 //@         && (forall d: str :: {$bal[fromBech32(state.Account.Id)][d]} $bal[fromBech32(state.Account.Id)][d] == old($bal[fromBech32(state.Account.Id)][d]) + truncInt(old(state.Remains[d])))
 //@         && (forall a: str :: {$bal[a]} a != MAIN() && a != fromBech32(state.Account.Id) ==> $bal[a] == old($bal[a])))
-//@   prop C14 C01 C10
+//@   prop C14 C01 C10 C03
 //@ // ---- the state list: lookup and sums (C03 / C04) ----
 //@ // total remains of denom d over the first n states of a row
 //@ spec func sumRem(row [int][str]int, d str, n int) int = n <= 0 ? 0 : sumRem(row, d, n - 1) + row[n - 1][d]
